@@ -479,6 +479,9 @@ func vfC42ILabels(c *vfCase, st vfC42IStats) {
 }
 
 func TestVF_C42_ItemBuf(t *testing.T) {
+	// one P: sync.Pool then serves a put buffer to the next matching get deterministically (reproducible cases, high
+	// reuse rate) and forced GC cycles do not pay for waking 16 Ps
+	defer runtime.GOMAXPROCS(runtime.GOMAXPROCS(1))
 	// The cases allocate large short-lived buffers; with the default pacing the heap stays tiny, every large buffer
 	// triggers a GC cycle and the scavenger returns its pages to the OS, so that page faults dominate the run time.
 	// Collect only when the heap reaches a fixed limit instead; explicit runtime.GC() ops (drawn) still exercise the
@@ -515,6 +518,7 @@ func TestVF_C42_ItemBuf(t *testing.T) {
 }
 
 func TestVF_C42_ItemBufConcurrent(t *testing.T) {
+	defer runtime.GOMAXPROCS(runtime.GOMAXPROCS(4))
 	// The cases allocate large short-lived buffers; with the default pacing the heap stays tiny, every large buffer
 	// triggers a GC cycle and the scavenger returns its pages to the OS, so that page faults dominate the run time.
 	// Collect only when the heap reaches a fixed limit instead; explicit runtime.GC() ops (drawn) still exercise the
